@@ -3,6 +3,7 @@
 package main
 
 import (
+	"bytes"
 	"encoding/json"
 	"os"
 	"path/filepath"
@@ -604,5 +605,73 @@ func longLabelDocs() [][]byte {
 			}
 		}
 	}
+	return out
+}
+
+// deepNestDocs: documents whose containers nest 15..300 deep (block quotes, bullet lists, ordered lists and mixtures),
+// with a two-line paragraph, a fenced block or a heading at the bottom; around powers of two and round numbers, where a
+// nesting bound or a fixed-size table would sit. Tab-free, CR-free, no blank lines, first character non-space.
+func deepNestDocs() [][]byte {
+	var out [][]byte
+	depths := []int{15, 16, 17, 30, 31, 32, 33, 47, 48, 49, 62, 63, 64, 65, 66, 99, 100, 101, 127, 128, 129, 199, 200, 201, 255, 256, 257, 300}
+	bodies := []string{"a\nb\n", "# h\n", "```\nc\n```\n", "[x]: /u\n[x]\n"}
+	for _, k := range depths {
+		for bi, body := range bodies {
+			if bi > 0 && k%2 == 1 {
+				continue
+			}
+			// block quotes only: every line carries k markers
+			out = append(out, prefixLines([]byte(body), strings.Repeat("> ", k), strings.Repeat("> ", k)))
+			out = append(out, prefixLines([]byte(body), strings.Repeat(">", k)+" ", strings.Repeat(">", k)+" "))
+			// bullet lists only: continuation lines are indented by 2 per level
+			if k <= 130 {
+				out = append(out, prefixLines([]byte(body), strings.Repeat("- ", k), strings.Repeat("  ", k)))
+				out = append(out, prefixLines([]byte(body), strings.Repeat("1. ", k), strings.Repeat("   ", k)))
+				// alternating quote / list item
+				var f, r strings.Builder
+				for j := 0; j < k; j++ {
+					if j%2 == 0 {
+						f.WriteString("> ")
+						r.WriteString("> ")
+					} else {
+						f.WriteString("- ")
+						r.WriteString("  ")
+					}
+				}
+				out = append(out, prefixLines([]byte(body), f.String(), r.String()))
+			}
+		}
+	}
+	return out
+}
+
+// nearLimitDocs: one root block whose size is just below (and, last two, at/above) the streaming parser's block limit
+// (maxBlockSize-2 bytes buffered without the end of the current line): everything below the limit must stream exactly
+// like it parses in memory; the two above it are in the class of the known finding KF-C04-streaming-block-limit.
+func nearLimitDocs() [][]byte {
+	const limit = 1<<20 - 2
+	var out [][]byte
+	mk := func(total int, eol string, fenced bool) []byte {
+		var sb bytes.Buffer
+		open, close := "", ""
+		if fenced {
+			open, close = "```"+eol, "```"+eol
+		}
+		sb.WriteString(open)
+		line := strings.Repeat("x", 63-len(eol)+1) + eol // 64 bytes
+		for sb.Len()+len(line)+len(close) <= total-70 {
+			sb.WriteString(line)
+		}
+		// last content line pads to the exact total
+		rest := total - sb.Len() - len(close) - len(eol)
+		sb.WriteString(strings.Repeat("y", rest) + eol)
+		sb.WriteString(close)
+		return sb.Bytes()
+	}
+	for _, k := range []int{8, 9, 15, 100, 4096, 8191, 8192, 8193, 16384, 20000, 24575, 24576, 24577, 40000} {
+		out = append(out, mk(limit-k, "\n", true))
+	}
+	out = append(out, mk(limit-8, "\r\n", false), mk(limit-8200, "\r\n", false), mk(limit-20000, "\n", false))
+	out = append(out, mk(limit+1, "\n", true), mk(limit+9000, "\n", false))
 	return out
 }
